@@ -162,13 +162,17 @@ structure ChunkRes where
   nonce : Nat
   wire : Bytes
 
-/-- `ShadowStreamConn.read` -/
+/-- the nonce after an AEAD open that FAILED under nonce `n` (`DecryptInPlace` / `DecryptTo`
+increment only on success; the regenerated fact says whether the source still does) -/
+def failNonce (n : Nat) : Nat := if decryptAdvancesOnlyOnSuccess then n else n + 1
+
+/-- `ShadowStreamConn.readChunk` (the body of `read` behind the sticky-error guard) -/
 def readChunk (C : Crypto) (k : Bytes) (n : Nat) (w : Bytes) : ChunkRes :=
   match readFull (2 + tagSize) w with
   | .error e => ⟨.error e, n, []⟩
   | .ok (c1, w1) =>
     match C.dec k n c1 with
-    | none => ⟨.error .auth, n, w1⟩
+    | none => ⟨.error .auth, failNonce n, w1⟩
     | some lp =>
       let len := unbe16 lp
       if len = 0 then ⟨.error .zeroLenChunk, n + 1, w1⟩
@@ -176,7 +180,7 @@ def readChunk (C : Crypto) (k : Bytes) (n : Nat) (w : Bytes) : ChunkRes :=
         | .error e => ⟨.error e, n + 1, []⟩
         | .ok (c2, w2) =>
           match C.dec k (n + 1) c2 with
-          | none => ⟨.error .auth, n + 1, w2⟩
+          | none => ⟨.error .auth, failNonce (n + 1), w2⟩
           | some p => ⟨.ok p, n + 2, w2⟩
 
 /-- reading side of a `ShadowStreamConn`: cipher key and nonce, `readBuf[readStart:]`, and the bytes
@@ -278,6 +282,43 @@ def Reader.run (C : Crypto) : Reader → List ROp → List ROut
     | some _ => [o]
     | none => o :: Reader.run C r' ops
 
+/-! ### sticky read errors (`ShadowStreamConn.readErr`) -/
+
+/-- the error an outcome reported, other than end of stream -/
+def ROut.hardErr (o : ROut) : Option Err :=
+  match o.err with
+  | some .eof => none
+  | e => e
+
+/-- what a call returns once `read` refuses to run: `Read` returns `0, err`, the copies `0, err`
+(the left-over is empty whenever `read` has failed: `Read` only calls it with an empty left-over and
+the copies flush the left-over first) -/
+def failedOut (op : ROp) (e : Err) : ROut :=
+  match op with
+  | .read _ => .fail e
+  | _ => .copied [] (some e)
+
+/-- a `ShadowStreamConn` reading side with its sticky error (`readErr`). `readErrorsSticky` is the
+regenerated fact that `read` starts with the guard and records the first error other than
+`io.EOF`; with the fact `false` the model mirrors the unguarded code: later calls go on with whatever
+cipher/transport state the failed call left behind. -/
+structure SReader where
+  r : Reader
+  err : Option Err := none
+  deriving Repr
+
+def SReader.step (C : Crypto) (s : SReader) (op : ROp) : ROut × SReader :=
+  match (if readErrorsSticky then s.err else none) with
+  | some e => (failedOut op e, s)
+  | none =>
+    let (o, r') := s.r.step C op
+    (o, { r := r', err := if readErrorsSticky then o.hardErr else none })
+
+/-- run a whole schedule, going on after errors (a caller that reads again after a failed read) -/
+def SReader.run (C : Crypto) : SReader → List ROp → List ROut
+  | _, [] => []
+  | s, op :: ops => (s.step C op).1 :: SReader.run C (s.step C op).2 ops
+
 /-! ### SOCKS addresses (socks5/addr.go) -/
 
 inductive Addr
@@ -297,6 +338,15 @@ def is4in6 (ip : Bytes) : Bool := ip.take 12 == [0, 0, 0, 0, 0, 0, 0, 0, 0, 0, 0
 /-- what the peer sees: IPv4-mapped IPv6 becomes IPv4 -/
 def Addr.norm : Addr → Addr
   | .v6 ip p => if is4in6 ip then .v4 (ip.drop 12) p else .v6 ip p
+  | a => a
+
+/-- what the holder of a `ConnRequest` sees when it looks at the target address again after the
+server conn has written: `HandleStream` parses the request inside the conn's write buffer, so the
+address stays what it was only if `socks5.ConnAddrFromSlice` copies the domain name out of the
+slice (regenerated fact); `overwritten` stands for the bytes now at that place -/
+def addrSeenLater (a : Addr) (overwritten : Bytes) : Addr :=
+  match a with
+  | .domain d p => if connAddrFromSliceCopies then .domain d p else .domain (overwritten.take d.length) p
   | a => a
 
 /-- `WriteAddrFromConnAddr` -/
@@ -577,6 +627,8 @@ structure CReader where
   segs : List Bytes
   /-- `none` until `initRead` ran (`readCipher == nil`) -/
   r : Option Reader
+  /-- `readErr` -/
+  err : Option Err := none
   deriving Repr
 
 /-- `ParseTCPResponseHeader` -/
@@ -601,7 +653,7 @@ def initRead (C : Crypto) (c : CReader) (now : Int) : Except Err Nat × CReader 
     let salt := (b.drop urspLen).take saltLen
     let k := C.kdf c.psk salt
     match C.dec k 0 (b.drop (urspLen + saltLen)) with
-    | none => (.error .auth, { c with segs := [], r := some ⟨k, 0, [], rest⟩ })
+    | none => (.error .auth, { c with segs := [], r := some ⟨k, failNonce 0, [], rest⟩ })
     | some h =>
       match parseRespHeader h now c.reqSalt with
       | .error e => (.error e, { c with segs := [], r := some ⟨k, 1, [], rest⟩ })
@@ -616,7 +668,7 @@ def firstPayload (C : Crypto) (c : CReader) (len : Nat) : Except Err Bytes × CR
     | .error e => (.error e, { c with r := some { r with wire := [] } })
     | .ok (c2, rest2) =>
       match C.dec r.key r.nonce c2 with
-      | none => (.error .auth, { c with r := some { r with wire := rest2 } })
+      | none => (.error .auth, { c with r := some { r with nonce := failNonce r.nonce, wire := rest2 } })
       | some p => (.ok p, { c with r := some { r with nonce := r.nonce + 1, wire := rest2 } })
 
 /-- `ShadowStreamClientConn.Read(b)` -/
@@ -669,5 +721,23 @@ def CReader.tunnel (C : Crypto) (c : CReader) (now : Int) (started : Bool) : ROu
     else if tunnelGuardsUnstartedServer then let (o, r') := r.writeTo C; (o, { c with r := some r' })
     else (.copied [] (some .nilDeref), c)
   | none => c.firstCopy C now (fun r => r.tunnel C)
+
+/-- the client conn with its sticky error: errors are recorded once the read cipher exists
+(`initRead` after `readCipher` is assigned, `readFirstPayloadChunk`, `read`) -/
+def CReader.sticky (c : CReader) (op : ROp) (f : CReader → ROut × CReader) : ROut × CReader :=
+  match (if readErrorsSticky then c.err else none) with
+  | some e => (failedOut op e, c)
+  | none =>
+    let (o, c') := f c
+    (o, if readErrorsSticky && c'.r.isSome then { c' with err := o.hardErr } else c')
+
+def CReader.readS (C : Crypto) (c : CReader) (now : Int) (n : Nat) : ROut × CReader :=
+  c.sticky (.read n) (fun c => c.read C now n)
+
+def CReader.writeToS (C : Crypto) (c : CReader) (now : Int) : ROut × CReader :=
+  c.sticky .writeTo (fun c => c.writeTo C now)
+
+def CReader.tunnelS (C : Crypto) (c : CReader) (now : Int) (started : Bool) : ROut × CReader :=
+  c.sticky .tunnel (fun c => c.tunnel C now started)
 
 end SSV.Stream
